@@ -54,7 +54,7 @@ def run_one(profile, program):
 
 # ----------------------------------------------------------------------------- worker
 
-def worker_main(pid, base_seed, start, step, runs, budget_s, out_path, per_run_cap=180):
+def worker_main(pid, base_seed, start, step, runs, budget_s, out_path, per_run_cap=180, tier="quick"):
     import faulthandler
 
     from .core import Agg, setup_env
@@ -75,8 +75,12 @@ def worker_main(pid, base_seed, start, step, runs, budget_s, out_path, per_run_c
         seed = mix_seed(base_seed, pid, i)
         try:
             signal.alarm(per_run_cap)
-            program = profile.generate(PRNG(seed))
+            rng = PRNG(seed, tier)
+            rng.decide_size_class()
+            program = profile.generate(rng)
             program.setdefault("format", 1)
+            program["tier"] = tier
+            program["big"] = rng.big
             program["property"] = pid
             program["seed"] = seed
             program["index"] = i
@@ -287,7 +291,7 @@ def check_main(pid, tier, base_seed, runs=None, jobs=None, budget_s=None):
         out = os.path.join(work, "w%d.json" % w)
         cmd = ["timeout", str(int(budget + 900)), PY, os.path.join(HERE, "check"), pid, "--worker",
                "--seed", str(base_seed), "--start", str(w), "--step", str(jobs), "--runs", str(runs),
-               "--budget", str(budget), "--out", out]
+               "--budget", str(budget), "--out", out, "--tier", tier]
         procs.append((w, out, subprocess.Popen(cmd, env=env, cwd=HERE, stdout=subprocess.PIPE,
                                                stderr=subprocess.STDOUT, text=True)))
     from .core import Agg
